@@ -16,12 +16,15 @@ Progress is proved as: no reachable state is stuck (from every state with undeli
 a finite run of protocol steps — retransmit the lowest outstanding segment or open the window by one
 ack round, deliver — after which strictly more is delivered) and nothing ever undoes progress;
 under weak fairness of those steps the transfer therefore completes.
-Partial (named, not proved): real-time liveness (RTO arithmetic, CUBIC, the Go scheduler), the
-receive-window / back-pressure path (it needs an application that keeps reading), abandonment after
-`txCountLimit` transmissions of one segment that were all lost.
+The second half of this file (`Mieru.Model.Flow`) repeats safety and progress in a model that CAN stall:
+receive capacity, advertised window, send limits, `txCount` and abandonment, an application that reads.
+Partial (named, not proved): real-time liveness (RTO / back-off arithmetic, CUBIC, the Go scheduler;
+fairness as a temporal formula), uint32 wrap of sequence numbers, several sessions per underlay.
 Tie to the code: tie T — `Mieru.Gen.Facts` (the discard and receive predicates, the sequence
-counters) and tie C — every UDP run of harness/props/c02.go is replayed through `Arq.acceptAll`
-(trace inclusion), whose soundness is `accepted_history_safe` below.
+counters), `Mieru.Gen.UdpFacts` (window stores, guards) and tie C — every UDP run of harness/props/c02.go
+is replayed through `Arq.acceptAll` (trace inclusion, soundness: `accepted_history_safe`); the real input /
+output functions of one packet session are compared op by op with `Flow.recvOp` / `Flow.round`
+(harness/props/c02_flow.go); both endpoints' window state is sampled live (harness/sim/observe.go).
 -/
 namespace Mieru.C02
 open Mieru Mieru.Arq
